@@ -1017,12 +1017,13 @@ impl MutableArchive {
 
         // Encrypt if requested
         if options.encrypt {
+            let plain_name = crate::path::plain_file_name(archive_name);
             let key = if options.fix_key {
                 // For FIX_KEY, we need the block position
                 // This is a simplified version - real implementation would adjust by block
-                hash_string(archive_name, hash_type::FILE_KEY)
+                hash_string(plain_name, hash_type::FILE_KEY)
             } else {
-                hash_string(archive_name, hash_type::FILE_KEY)
+                hash_string(plain_name, hash_type::FILE_KEY)
             };
 
             // Remember original length before padding (reserved for future use)
